@@ -12,6 +12,8 @@ import (
 	"math/big"
 	"math/rand"
 	"strings"
+	"sync"
+	"sync/atomic"
 	"time"
 
 	"github.com/attestantio/go-block-relay/services/blockauctioneer"
@@ -647,6 +649,56 @@ func caseOddBids(r *rand.Rand) string {
 	return fmt.Sprintf("odd-bids|%d", kind)
 }
 
+// ---------- (i) the first auction after start-up: many relays answering at the same instant ----------
+
+type gatedRelay struct {
+	*harness.Relay
+	gate *sync.WaitGroup
+}
+
+func (g gatedRelay) BuilderBid(ctx context.Context, o *builderapi.BuilderBidOpts) (*builderapi.Response[*builderspec.VersionedSignedBuilderBid], error) {
+	g.gate.Done()
+	g.gate.Wait()
+	return g.Relay.BuilderBid(ctx, o)
+}
+
+var simNo atomic.Int64
+
+func caseSimultaneousBids(r *rand.Rand) string {
+	clock := harness.NewVClock(12*time.Second, 32)
+	clock.Genesis = time.Unix(0, 0)
+	nRelays := 6 + r.Intn(10)
+	configured := r.Intn(3) == 0 // relay keys given in the configuration, or announced by the relays
+	for round := 0; round < 6; round++ {
+		s, err := bidbest.New(bg, bidbest.WithLogLevel(zerolog.Disabled), bidbest.WithMonitor(nullmetrics.New()), bidbest.WithSpecProvider(harness.NewSpec(32, nil)), bidbest.WithDomainProvider(harness.RecDomains{}),
+			bidbest.WithChainTime(clock), bidbest.WithTimeout(2*time.Second), bidbest.WithReleaseVersion("verif"))
+		if err != nil {
+			return "simultaneous-bids|setup-failed"
+		}
+		gate := &sync.WaitGroup{}
+		gate.Add(nRelays)
+		pc := &beaconblockproposer.ProposerConfig{}
+		tag := simNo.Add(1)
+		for i := 0; i < nRelays; i++ {
+			rl := &harness.Relay{Addr: fmt.Sprintf("http://sim%d-%d.example.com/", tag, i), KeyNo: i % 8, Start: time.Now(), Parent: phase0.Hash32{7, 7, 7}, HasPubkey: true}
+			rl.Steps = append(rl.Steps, struct {
+				At  time.Duration
+				Bid *harness.BidSpec
+				Err bool
+			}{0, &harness.BidSpec{Value: uint64(100 + i), Builder: i % 4, Header: i % 3}, false})
+			util.VerifSetBuilderClient(rl.Addr, gatedRelay{rl, gate})
+			rc := &beaconblockproposer.RelayConfig{Address: rl.Addr, MinValue: decimal.Zero}
+			if configured {
+				pk := harness.RelayPub(i % 8)
+				rc.PublicKey = &pk
+			}
+			pc.Relays = append(pc.Relays, rc)
+		}
+		_, _ = s.BuilderBid(bg, 0, phase0.Hash32{7, 7, 7}, phase0.BLSPubKey{1}, pc, map[phase0.BLSPubKey]*blockrelay.BuilderConfig{})
+	}
+	return fmt.Sprintf("simultaneous-bids|%d|%v", nRelays, configured)
+}
+
 type surface struct {
 	name   string
 	weight int
@@ -663,6 +715,7 @@ var surfaces = []surface{
 	{"cache-events", 4, caseCacheEvents},
 	{"error-strings", 4, caseErrorStrings},
 	{"odd-bids", 4, caseOddBids},
+	{"simultaneous-bids", 2, caseSimultaneousBids},
 }
 
 func run(c *harness.Ctx) {
@@ -703,7 +756,7 @@ func main() {
 	harness.Main(&harness.Spec{
 		Property:      "C16",
 		Level:         "exploration",
-		Rule:          "one hostile but decoder-deliverable input per case on nine surfaces: execution configs from a JSON grammar with nulls / wrong types / empty maps at every level (v2 and legacy) -> UnmarshalJSON -> ProposerConfig/Marshal; unparsable and odd relay addresses through both bid strategies; graffiti templates ({{CLIENT}} with client names of 0-40 bytes, node-client errors) through the best proposal strategy, and graffiti files (blank, CRLF, long, binary) through the dynamic provider and the proposer; blinded proposals of every version with no / failed / nil / empty auction results; duplicate, out-of-epoch, huge-index and position-beyond-committee duties through MergeDuties, the real attester and the controller; zero-valued events and blocks through the cache handlers; client error strings with arbitrary JSON tails through the submitters; bids with missing parts. Each case is journaled before it runs; a crash is attributed to it and the batch resumes after it. distinct = surface + input class",
+		Rule:          "one hostile but decoder-deliverable input per case on ten surfaces: execution configs from a JSON grammar with nulls / wrong types / empty maps at every level (v2 and legacy) -> UnmarshalJSON -> ProposerConfig/Marshal; unparsable and odd relay addresses through both bid strategies; graffiti templates ({{CLIENT}} with client names of 0-40 bytes, node-client errors) through the best proposal strategy, and graffiti files (blank, CRLF, long, binary) through the dynamic provider and the proposer; blinded proposals of every version with no / failed / nil / empty auction results; duplicate, out-of-epoch, huge-index and position-beyond-committee duties through MergeDuties, the real attester and the controller; zero-valued events and blocks through the cache handlers; client error strings with arbitrary JSON tails through the submitters; bids with missing parts; first auctions with 6-15 relays delivering their bids at the same instant. Each case is journaled before it runs; a crash is attributed to it and the batch resumes after it. distinct = surface + input class",
 		Batches:       func(string) int { return 8 },
 		Parallel:      8,
 		Run:           run,
